@@ -75,6 +75,38 @@ pub struct Frontend {
     pub server_wrappers: bool,
     /// IsolateEnglish wrapper (server option `isolateEnglish`)
     pub isolate_english: bool,
+    /// choose the comment parser from a file name (as harper-cli does) instead of a language id
+    #[serde(default)]
+    pub by_filename: bool,
+}
+
+/// A file extension harper-cli maps to this language id.
+pub fn extension_of(lang: &str) -> Option<&'static str> {
+    Some(match lang {
+        "python" => "py",
+        "nix" => "nix",
+        "rust" => "rs",
+        "typescript" => "ts",
+        "typescriptreact" => "tsx",
+        "javascript" => "js",
+        "javascriptreact" => "jsx",
+        "go" => "go",
+        "c" => "c",
+        "cpp" => "cpp",
+        "cmake" => "cmake",
+        "ruby" => "rb",
+        "swift" => "swift",
+        "csharp" => "cs",
+        "toml" => "toml",
+        "lua" => "lua",
+        "shellscript" => "sh",
+        "java" => "java",
+        "haskell" => "hs",
+        "php" => "php",
+        "dart" => "dart",
+        "scala" => "scala",
+        _ => return None,
+    })
 }
 
 impl Frontend {
@@ -84,6 +116,7 @@ impl Frontend {
             ignore_link_title: false,
             server_wrappers: false,
             isolate_english: false,
+            by_filename: false,
         }
     }
     pub fn of(lang: &str) -> Self {
@@ -92,6 +125,7 @@ impl Frontend {
             ignore_link_title: false,
             server_wrappers: false,
             isolate_english: false,
+            by_filename: false,
         }
     }
     pub fn is_plain(&self) -> bool {
@@ -99,11 +133,12 @@ impl Frontend {
     }
     pub fn label(&self) -> String {
         format!(
-            "{}{}{}{}",
+            "{}{}{}{}{}",
             self.lang,
             if self.ignore_link_title { "+ilt" } else { "" },
             if self.server_wrappers { "+srv" } else { "" },
-            if self.isolate_english { "+iso" } else { "" }
+            if self.isolate_english { "+iso" } else { "" },
+            if self.by_filename { "+by-filename" } else { "" }
         )
     }
 
@@ -148,7 +183,12 @@ impl Frontend {
                 Box::new(git_commit_parser::GitCommitParser::new_markdown(opts))
             }
             other => {
-                let p = CommentParser::new_from_language_id(other, opts)?;
+                let p = if self.by_filename {
+                    let ext = extension_of(other)?;
+                    CommentParser::new_from_filename(std::path::Path::new(&format!("/tmp/src/file.{ext}")), opts)?
+                } else {
+                    CommentParser::new_from_language_id(other, opts)?
+                };
                 if self.server_wrappers {
                     let ident = p.create_ident_dict(source);
                     wrap_ident(Box::new(p), ident, &mut dict)
@@ -186,8 +226,10 @@ pub fn frontend_strategy() -> BoxedStrategy<Frontend> {
         any::<bool>(),
         prop::bool::weighted(0.35),
         prop::bool::weighted(0.15),
+        prop::bool::weighted(0.2),
     )
-        .prop_map(|(lang, ilt, srv, iso)| Frontend {
+        .prop_map(|(lang, ilt, srv, iso, by_filename)| Frontend {
+            by_filename: by_filename && extension_of(&lang).is_some(),
             lang,
             ignore_link_title: ilt,
             server_wrappers: srv,
